@@ -487,18 +487,21 @@ impl Config {
 
     /// Count potential number of sources in configuration
     fn count_sources(&self) -> usize {
-        let mut count = 0;
+        let mut count: usize = 0;
         for source in &self.sources {
             match source {
-                NtpSourceConfig::Standard(_) => count += 1,
-                NtpSourceConfig::Nts(_) => count += 1,
-                NtpSourceConfig::Pool(config) => count += config.first.count,
-                NtpSourceConfig::NtsPool(config) => count += config.first.count,
-                NtpSourceConfig::Sock(_) => count += 1,
+                // pool counts come straight from the configuration file: saturate instead of overflowing
+                NtpSourceConfig::Standard(_) => count = count.saturating_add(1),
+                NtpSourceConfig::Nts(_) => count = count.saturating_add(1),
+                NtpSourceConfig::Pool(config) => count = count.saturating_add(config.first.count),
+                NtpSourceConfig::NtsPool(config) => {
+                    count = count.saturating_add(config.first.count);
+                }
+                NtpSourceConfig::Sock(_) => count = count.saturating_add(1),
                 #[cfg(feature = "pps")]
                 NtpSourceConfig::Pps(_) => {} // PPS sources don't count
                 #[cfg(target_os = "linux")]
-                NtpSourceConfig::Csptp(_) => count += 1,
+                NtpSourceConfig::Csptp(_) => count = count.saturating_add(1),
             }
         }
         count
